@@ -98,6 +98,18 @@ func (ds *AnySource) RunDoneActivate() {
 
 // RunDoneDeactivate calls Done on ds.runDone, this should only be called (by defer) in Start
 func (ds *AnySource) RunDoneDeactivate() {
+	// The run is over, whether it was stopped or the source ended it by itself (error, time-out).
+	// Nobody is processing data any more, so this is the place to close what belongs to the run;
+	// a later Stop() finds the source Inactive and would not do it.
+	if ds.writingState.IsActive() {
+		ds.WriteControl(&WriteControlConfig{Request: "STOP"})
+	}
+	if ds.archiveBlock.active {
+		// An unfinished raw-data request is completed with the samples it has: its writer goroutine
+		// must not wait forever, nor must the next run append to it.
+		close(ds.archiveBlock.complete)
+		ds.archiveBlock.active = false
+	}
 	ds.sourceStateLock.Lock()
 	ds.sourceState = Inactive
 	ds.runDone.Done()
